@@ -41,7 +41,10 @@ Record ofscan := mkFS { fs_t : N; fs_prefix : bytes; fs_runs : list (bool * list
 Inductive wread := mkR (file : N) (after : N) (res : wal_res).
 
 Inductive case :=
-| TabC (deep : bool) (es : list entry) (target : N)            (* target 0 = TableWriter.Write, else WriteRun *)
+| TabC (tp : tparams)       (* the writer-side constants of the code under test (index spacing, bloom bits / hashes),
+                               read off a probe table the engine writes with the real TableWriter: the property does
+                               not fix them, the model's encoder takes them as parameters *)
+       (deep : bool) (es : list entry) (target : N)            (* target 0 = TableWriter.Write, else WriteRun *)
        (tables : list otable) (lookups : list olookup) (scans : list oscan) (blooms : list obloom) (lgets : list olget)
        (fgets : list ofget) (fscans : list ofscan)
 | WalC (deep : bool) (s0 : N) (ops : list wop) (files : list bytes) (reads : list wread).
@@ -151,11 +154,11 @@ Definition light_table (es : list entry) : table :=
 Definition opt_concat (l : list (option (list entry))) : option (list entry) :=
   fold_right (fun o acc => match o, acc with Some x, Some y => Some (x ++ y) | _, _ => None end) (Some []) l.
 
-Definition check_tab (deep : bool) (es : list entry) (target : N) (ts : list otable)
+Definition check_tab (tp : tparams) (deep : bool) (es : list entry) (target : N) (ts : list otable)
            (lookups : list olookup) (scans : list oscan) (blooms : list obloom) (lgets : list olget)
            (fgets : list ofget) (fscans : list ofscan) : list N :=
   let chunks := if target =? 0 then [es] else write_run es target in
-  let mts := if deep then map write_table chunks else map light_table chunks in
+  let mts := if deep then map (write_table tp) chunks else map light_table chunks in
   let ochunks := map scan_of ts in
   (* --- model --- *)
   flag (list_eqb Nat.eqb (map (@length _) chunks) (map (@length _) ochunks)) 1 ++
@@ -163,7 +166,7 @@ Definition check_tab (deep : bool) (es : list entry) (target : N) (ts : list ota
   (if deep then
      flag (all2 (fun t ot => (ot_cks ot =? 0) || (cksum (t_file t) =? ot_cks ot)) mts ts) 3 ++
      flat_map (check_lookup_model mts) lookups ++
-     flag (forallb (fun b => let bf := bloom_of es in
+     flag (forallb (fun b => let bf := bloom_of tp es in
                              Bool.eqb (bl_has b) (bf_might_have bf (bl_key b))
                              && match bf_decode (bf_encode bf) with
                                 | Some (bf', _) => Bool.eqb (bl_has_dec b) (bf_might_have bf' (bl_key b))
@@ -254,8 +257,8 @@ Definition check_wal (deep : bool) (s0 : N) (ops : list wop) (files : list bytes
 
 Definition check_case (c : case) : list N :=
   match c with
-  | TabC deep es target ts lookups scans blooms lgets fgets fscans =>
-      check_tab deep es target ts lookups scans blooms lgets fgets fscans
+  | TabC tp deep es target ts lookups scans blooms lgets fgets fscans =>
+      check_tab tp deep es target ts lookups scans blooms lgets fgets fscans
   | WalC deep s0 ops files reads => check_wal deep s0 ops files reads
   end.
 
